@@ -28,14 +28,14 @@ for dir in "$@"; do
   status=""
   if [ -z "$SEEDED_SKIP_CONFIRM" ]; then
     if [ -f "$dir/$DEMO" ]; then
-      (cd "$scratch" && timeout 300 /venv/bin/python "$dir/$DEMO" "$scratch/tree" > "$scratch/demo_clean.out" 2>&1); e0=$?
+      (cd "$scratch" && timeout ${SEEDED_DEMO_TIMEOUT:-900} /venv/bin/python "$dir/$DEMO" "$scratch/tree" > "$scratch/demo_clean.out" 2>&1); e0=$?
     else e0=0; fi
   fi
   if ! (cd "$scratch/tree" && git apply "$dir/$PATCH"); then echo "$name: DOES-NOT-APPLY"; rc=1; rm -rf "$scratch"; continue; fi
   if [ -z "$SEEDED_SKIP_CONFIRM" ]; then
     python3 "$here/tools/baseline.py" "$scratch/tree" > "$scratch/baseline.out" 2>&1; eb=$?
     if [ -f "$dir/$DEMO" ]; then
-      (cd "$scratch" && timeout 300 /venv/bin/python "$dir/$DEMO" "$scratch/tree" > "$scratch/demo_patched.out" 2>&1); e1=$?
+      (cd "$scratch" && timeout ${SEEDED_DEMO_TIMEOUT:-900} /venv/bin/python "$dir/$DEMO" "$scratch/tree" > "$scratch/demo_patched.out" 2>&1); e1=$?
     else e1=1; fi
     status="demo_clean=$e0 baseline=$([ $eb -eq 0 ] && echo pass || echo FAIL) demo_patched=$e1"
     if [ $e0 -ne 0 ] || [ $eb -ne 0 ] || [ $e1 -eq 0 ]; then
